@@ -1008,3 +1008,89 @@ def r_str_index(cx, fx):
                   "depends on the input text; the crate's checked form is `.get(range)`" % (fname, rk))
     cx.count(rule, "checked_slices", checked)
     cx.count(rule, "unchecked_slices", n)
+
+
+_SHIFTING = ("skip", "skip_while", "filter", "filter_map", "step_by", "rev", "chain", "flat_map", "flatten")
+
+
+def r_enum_index(cx, fx):
+    """R-ENUM-INDEX: `.enumerate()` numbers what reaches it from 0.  When that number is used, unadjusted, as a
+    position of the container (wrapped into an index type such as `TokenIdx`, or used to index / `.get()` a container),
+    nothing between the container's `.iter()` and the `.enumerate()` may drop or reorder elements (skip, filter, rev,
+    step_by, ...): otherwise every index handed out is off by the number of dropped elements (seed C18m: the MacroSep is
+    inserted `len - window` tokens too early).  An index that goes through `+`/`-` first is treated as adjusted and is
+    not judged."""
+    rule = "R-ENUM-INDEX"
+    cx.rules_run.append(rule)
+    n = 0
+    for fname, b in fx.bodies.items():
+        if fx.is_derive(fname) or b["kind"] not in ("Fn", "AssocFn"):
+            continue
+        for x, parents in F.walk(b["hir"]):
+            if not (x.get("k") == "MethodCall" and F.norm(x.get("def") or "") == "std::iter::Iterator::enumerate"):
+                continue
+            chain = []
+            r = F.strip(x["recv"])
+            while r.get("k") == "MethodCall":
+                chain.append(r.get("name"))
+                r = F.strip(r["recv"])
+            shifting = [m for m in chain if m in _SHIFTING]
+            # the binding of the index: first component of the tuple pattern of the consuming closure / for loop
+            idx_ids = set()
+            scope = None
+            for p in reversed(parents):
+                if p.get("k") == "MethodCall" and p.get("args"):
+                    for a in p["args"]:
+                        a = F.strip(a)
+                        if a.get("k") == "Closure" and a.get("params"):
+                            pat = a["params"][0]
+                            if pat.get("k") == "Tuple" and pat.get("pats") and pat["pats"][0].get("k") == "Bind":
+                                idx_ids.add(pat["pats"][0]["id"])
+                                scope = a["body"]
+                    if idx_ids:
+                        break
+            if scope is None:
+                # `for (i, x) in <chain>.enumerate()`: the desugared match arm binds Some((i, x))
+                for p in reversed(parents):
+                    if p.get("k") == "Match" and p.get("src") == "ForLoopDesugar":
+                        break
+                for y, _ in F.walk(b["hir"]):
+                    if y.get("k") == "Loop" and y.get("src") == "ForLoop":
+                        for z, zp in F.walk(y):
+                            if z.get("k") == "Tuple" and z.get("pats") and z["pats"][0].get("k") == "Bind" and \
+                                    (z.get("ty") or "").startswith("(usize,"):
+                                idx_ids.add(z["pats"][0]["id"])
+                                scope = y
+            if scope is None or not idx_ids:
+                continue
+            direct = None
+            for y, yp in F.walk(scope):
+                if y.get("k") == "Path" and y.get("res", {}).get("local") in idx_ids:
+                    anc = [a for a in yp if isinstance(a, dict) and a.get("k")]
+                    if any(a.get("k") == "Binary" and a.get("op") in ("Add", "Sub") for a in anc) or \
+                            any(a.get("k") == "AssignOp" for a in anc):
+                        continue
+                    for a in reversed(anc):
+                        k = a.get("k")
+                        if k in ("Cast", "DropTemps", "Use", "Unary", "AddrOf"):
+                            continue
+                        if k == "Call" and (a.get("ty") or "").endswith("Idx"):
+                            direct = a
+                        elif k == "Index":
+                            direct = a
+                        elif k == "MethodCall" and a.get("name") in ("get", "get_mut", "get_unchecked", "insert", "remove", "split_at"):
+                            direct = a
+                        break
+                if direct:
+                    break
+            if direct is None:
+                continue
+            n += 1
+            key = "%s|enumerate" % fname
+            ok = not shifting
+            cx.ob(rule, key, ok, F.file_line(F.site(x)),
+                  "the index handed out by enumerate() counts the container from its first element (chain: %s)" % list(reversed(chain)) if ok else
+                  "%s turns the enumerate() index into a container position unadjusted, but the chain drops / reorders elements "
+                  "before the enumeration (%s in %s): every position is off by the number of dropped elements"
+                  % (fname, shifting, list(reversed(chain))))
+    cx.count(rule, "sites", n)
